@@ -252,7 +252,7 @@ func TestVerifC18(t *testing.T) {
 		ev.InfraError("decoder self test: %v", err)
 	}
 	r := ev.New("C18", "exploration")
-	deadline := ev.Deadline(4*time.Minute, 40*time.Minute)
+	deadline := ev.Deadline(6*time.Minute, 45*time.Minute)
 	thorough := ev.Thorough()
 	cases := selected(grid(thorough))
 
@@ -262,6 +262,9 @@ func TestVerifC18(t *testing.T) {
 		"toolarge:<d> a single record whose own batch is ProducerBatchMaxBytes+d, pack:<d> one record per partition sized so that one request with all partitions is BrokerMaxWriteBytes+d, " +
 		"tinyedge:<d> 110 minimal records (2-byte offset-delta varints) + one padded to ProducerBatchMaxBytes+d, tiny:<n>, mixed (many batches, sizes 0..300 around varint boundaries), tsedge (timestamp deltas on varlong boundaries); " +
 		"sizes are searched with the reference encoders. Limits are the smallest config validation accepts (batch 512 / write 1024; 1024/2048 for tiny*, write 4096 for pack on 32 partitions; + transactional id length when that is long). " +
+		"Compact-length-prefix sub-grid (own cross product: quick v9-13, thorough v3-13 x gzip/snappy/lz4/zstd(+[zstd,gzip]) x layouts 1x1,1x2(,3x2)): prefix:<L+1>:<payload>:r<n> = n records (1 or 4) that as one batch encode to exactly L bytes with " +
+		"L+1 (the value of the COMPACT_BYTES uvarint prefix) in {126..129, 16382..16385, 20481, 65537, 2097150..2097153, 3145729} (quick: 127,128,16383,16384,20481 and 2097151/2097152 for v9,v13 gzip/zstd) and payload zero / rep (three-letter pattern) / mix (3/4 incompressible) / rnd, " +
+		"limits 32 KiB/64 KiB, 128 KiB/256 KiB or 4 MiB/8 MiB as needed; bigpack:<d> = pack with 20-30 KiB batches (three byte prefixes) and write limit 65536. The (prefix bytes before > after compression) pairs reached per codec are reported and a fixed list of them is required. " +
 		"distinct_nontrivial = distinct cases that made the client write at least one produce frame")
 	r.Assume("package reflog (checks/c06/reflog, shared with C06) and wire_test.go's produce request decoder are the specification of the wire formats; kmsg's ProduceRequest decoder is used as a cross-check only",
 		"the scripted broker acknowledges every produce request (no retries, no errors); one broker; ManualPartitioner",
@@ -364,8 +367,10 @@ func TestVerifC18(t *testing.T) {
 			pairs[k[5:]] = n
 		}
 	}
-	r.Set("v9plus_compact_prefix_width_pairs_batches", pairs) // "<codec>:<prefix bytes before>><after compression>"
-	if os.Getenv("C18_ONLY") == "" && !total.TimedOut && total.ViolCases == 0 { // (a violating run may well lose pairs: undecodable batches are not classified)
+	// keys: "<codec>:<prefix bytes before>><after compression>"
+	r.Set("v9plus_compact_prefix_width_pairs_batches", pairs)
+	// (a violating run may well lose pairs: undecodable batches are not classified)
+	if os.Getenv("C18_ONLY") == "" && !total.TimedOut && total.ViolCases == 0 {
 		var unseen []string
 		for _, p := range expectedPairs(thorough) {
 			if pairs[p] == 0 {
